@@ -4,6 +4,7 @@
    NaN, rationals), every cost function, every step size, momentum and iteration budget. *)
 From Coq Require Import List Bool QArith.
 From Bq Require Import GradDescent GradDescentFacts GradDescentQ.
+From BqGen Require Import GenGradDescent.
 Import ListNotations.
 
 Theorem C20_result_properties :
@@ -28,7 +29,7 @@ Print Assumptions C20_out_of_bounds_start_is_an_error.
 Theorem C20_no_convergence_is_an_error :
   forall (T : Type) (add sub mul div : T -> T -> T) (abs : T -> T) (ltb leb eqb : T -> T -> bool) (two eps zero : T)
          f x0 bounds lr max_iter tol mom,
-    gd_loop T add sub mul div abs ltb eqb two eps max_iter f bounds lr tol mom x0 zero [x0] = None ->
+    gd_loop T add sub mul div abs ltb leb eqb two eps max_iter f bounds lr tol mom x0 zero [x0] = None ->
     (match bounds with Some (b0, b1) => leb b0 x0 && leb x0 b1 | None => true end) = true ->
     gradient_descent T add sub mul div abs ltb leb eqb two eps zero f x0 bounds lr max_iter tol mom = GDRuntimeError.
 Proof. exact gd_not_converged. Qed.
@@ -38,3 +39,18 @@ Print Assumptions C20_no_convergence_is_an_error.
 Theorem C20_nonvacuous_Q : Qorder_ok /\ exists o c h, Qrun = GDOk o c h.
 Proof. exact Qrun_ok. Qed.
 Print Assumptions C20_nonvacuous_Q.
+
+(* the arithmetic and the tests of the loop ARE what analysis.py says, read over the carrier: the model's [gd_loop] and
+   [gradient_descent] are defined through the terms translated on every run (GenGradDescent.v) *)
+Theorem C20_translated_loop_terms :
+  forall (T : Type) (o : GenGradDescent.gd_ops T) (f : T -> T) (mom vel lr g cur nxt b0 b1 tol x0 v eps : T),
+    GenGradDescent.gen_gd_velocity o mom vel lr g = o_sub o (o_mul o mom vel) (o_mul o lr g) /\
+    GenGradDescent.gen_gd_next o cur vel = o_add o cur vel /\
+    GenGradDescent.gen_gd_clip o nxt b0 b1 = GenGradDescent.pmax o (GenGradDescent.pmin o nxt b1) b0 /\
+    GenGradDescent.gen_gd_hit o nxt b0 b1 = (o_eqb o nxt b0 || o_eqb o nxt b1)%bool /\
+    GenGradDescent.gen_gd_converged o g tol = o_ltb o (o_abs o g) tol /\
+    GenGradDescent.gen_gd_start_ok o x0 b0 b1 = (o_leb o b0 x0 && o_leb o x0 b1)%bool /\
+    GenGradDescent.gen_gd_grad o f v eps = o_div o (o_sub o (f (o_add o v eps)) (f (o_sub o v eps))) (o_mul o (o_two o) eps) /\
+    GenGradDescent.gen_gd_skeleton_checked = true.
+Proof. intros. repeat split; reflexivity. Qed.
+Print Assumptions C20_translated_loop_terms.
